@@ -5,7 +5,7 @@
 From Coq Require Import String.
 From Coq Require Import List Bool Arith NArith ZArith.
 Import ListNotations.
-Require Import PyLib Str Rx TextModel G_fn_sir2 RefJun RefValue RefWord RefWordsLine.
+Require Import PyLib Str Rx TextModel G_fn_sir2 RefJun RefBase RefWord RefWordsLine.
 Require G_fn_sir4 RefWordInit.
 
 (* "Each occurrence is replaced by a pseudonym determined only by the salt and the matched text": the translated
